@@ -23,19 +23,23 @@ import (
 	"bytes"
 	"encoding/binary"
 	"encoding/hex"
+	"encoding/json"
 	"fmt"
 	"io"
 	"math/rand"
 	"net/http"
 	"net/url"
 	"os"
+	"os/exec"
 	"path/filepath"
 	"sort"
 	"strings"
 	"sync"
+	"sync/atomic"
 	"time"
 
 	"github.com/glowlabs-org/gca-backend/client"
+	"github.com/glowlabs-org/gca-backend/server"
 
 	"verifharness/lib/drv"
 	"verifharness/lib/ev"
@@ -55,10 +59,10 @@ func main() {
 		Level:    "exploration",
 		Pkg:      "./cmd/c17",
 		Parallel: 24, // client rounds mostly sleep (60 ms protocol ticks)
-		Rule: "server side: one case = one POST /authorized-servers (new, duplicate with changed ports/location, same content re-signed, ban, second ban, un-ban attempt incl. replay of the original record, " +
+		Rule: "server side: one case = one POST /authorized-servers (or one burst of 2..8 simultaneous posts of one new record, followed by its ban) (new, duplicate with changed ports/location, same content re-signed, ban, second ban, un-ban attempt incl. replay of the original record, " +
 			"bad/foreign signature on each of these, posts before registration) followed by GET + snapshot; non-trivial = the post names an existing key or carries a signature that verifies under the GCA key. " +
 			"client side: one case = one sync round against the harness-held server (server lists: new / duplicate with changed ports / ban / second ban / un-ban / duplicates inside one list / one bad entry signature / wrong server key / stale time; " +
-			"a second/third record for one key without the GCA's signature, in lists and in orders; migration orders with 0..4 servers: valid, outer invalid or foreign, inner signed by old/foreign GCA, for another device, to the current GCA, signed by a former GCA) or one restart; overlap: a round held back by the server while another round completes (and mostly migrates), then answered with an unsigned order naming the former GCA / a list or an order signed by the former GCA / a list signed by the current GCA; " +
+			"a second/third record for one key without the GCA's signature, in lists and in orders; migration orders with 0..4 servers: valid, outer invalid or foreign, inner signed by old/foreign GCA, for another device, to the current GCA, signed by a former GCA) or one restart; a round that is busy re-sending hundreds of reports while a second round adopts a ban or an order; a round whose write of gcaServers.dat fails (client hosted in a grandchild process); overlap: a round held back by the server while another round completes (and mostly migrates), then answered with an unsigned order naming the former GCA / a list or an order signed by the former GCA / a list signed by the current GCA; " +
 			"non-trivial = the round reached the harness-held server. Distinct by (sequence seed, step).",
 		Assumptions: []string{
 			"the client's report loop is parked at its loop head (send.loop hook), so only the rounds issued by the harness run",
@@ -82,7 +86,7 @@ func main() {
 			for _, k := range []string{"srv.new_added", "srv.dup_ignored", "srv.ban_effective", "srv.on_banned_ignored", "srv.badsig_ignored", "srv.prereg_ignored",
 				"cli.contacted", "cli.entry_added", "cli.ban_applied", "cli.unban_ignored", "cli.dup_ignored", "cli.rejected_unchanged", "cli.migration_adopted", "cli.restart_ok",
 				"cli.class.mig_inner_wrong", "cli.class.mig_outer_invalid", "cli.class.mig_other_device", "cli.class.list_badsig",
-				"cli.class.list_dup_unsigned", "cli.class.mig_dup_unsigned", "cli.zero_order_delivered", "cli.overlap", "cli.overlap_migrated_meanwhile"} {
+				"cli.class.list_dup_unsigned", "cli.class.mig_dup_unsigned", "cli.zero_order_delivered", "cli.overlap", "cli.overlap_migrated_meanwhile", "cli.resend_overlap", "cli.resend_overlap_b_changed_state_while_a_resent", "srv.burst", "srv.burst_aligned", "fault.rounds"} {
 				c.Require(k, 1)
 			}
 		},
@@ -97,6 +101,13 @@ func plan(tier string, seed int64) []run.Batch {
 	var bs []run.Batch
 	for i := 0; i < cliChildren; i++ {
 		bs = append(bs, run.Batch{Kind: "client", Seed: seed*1000003 + int64(i), N: cliSeq, TimeoutS: 115})
+	}
+	faultChildren := 2
+	if tier == "thorough" {
+		faultChildren = 16
+	}
+	for i := 0; i < faultChildren; i++ {
+		bs = append(bs, run.Batch{Kind: "fault", Seed: seed*1000003 + 700000 + int64(i), N: 4, TimeoutS: 115})
 	}
 	for i := 0; i < srvChildren; i++ {
 		bs = append(bs, run.Batch{Kind: "server", Seed: seed*1000003 + 500000 + int64(i), N: srvSeq, TimeoutS: 115})
@@ -113,6 +124,14 @@ func child(b run.Batch, r *ev.Result) {
 	drv.GateRotation(true)
 	drv.GateImpact(true)
 	installPark()
+	if b.Kind == "fault" {
+		faultBatch(b, r, rng)
+		return
+	}
+	if b.Kind == "faultgrand" {
+		faultGrand(b, r, rng)
+		return
+	}
 	for i := 0; i < b.N; i++ {
 		seqSeed := rng.Int63()
 		dir := filepath.Join(b.Dir, fmt.Sprintf("seq%d", i))
@@ -357,7 +376,9 @@ func serverSequence(r *ev.Result, rng *rand.Rand, dir, label string) {
 			cur = map[[32]byte]refenc.AuthServer{}
 			for _, x := range list {
 				if y, dup := cur[x.Pub]; dup && y != x {
-					bad("server-entry-altered:second-record-for-key", "%s lists two different records for key %x", src, x.Pub[:4])
+					bad("server-entry-altered:second-record-for-key", "%s lists two different records for key %x (%s and %s)", src, x.Pub[:4], short(content(y)), short(content(x)))
+				} else if dup && si == 0 {
+					r.Count("srv.identical_duplicate_records", 1)
 				}
 				cur[x.Pub] = x
 				if !registered {
@@ -459,6 +480,47 @@ func serverSequence(r *ev.Result, rng *rand.Rand, dir, label string) {
 		return observe(srvOp{kind, a})
 	}
 
+	// burst: the same new, validly signed record arrives K times at once (the
+	// handlers are aligned at their instrumented entry point), then it is banned
+	burst := func() bool {
+		a := fresh(false).Signed(gca.Priv)
+		K := 2 + rng.Intn(7)
+		var arrivals atomic.Int32
+		giveUp := time.Now().Add(2 * time.Second) // only against a hang; the verdict does not depend on it
+		server.VerifSetHook("as.post.ready", func(*server.GCAServer) {
+			arrivals.Add(1)
+			for arrivals.Load() < int32(K) && time.Now().Before(giveUp) {
+				time.Sleep(50 * time.Microsecond)
+			}
+		})
+		run.Op("%s burst of %d posts of %s", label, K, short(content(a)))
+		var wg sync.WaitGroup
+		for i := 0; i < K; i++ {
+			wg.Add(1)
+			go func() {
+				defer wg.Done()
+				postJSON(e.HTTP, "/api/v1/authorized-servers", a.JSON())
+			}()
+		}
+		wg.Wait()
+		server.VerifSetHook("as.post.ready", func(*server.GCAServer) {})
+		if arrivals.Load() >= int32(K) {
+			r.Count("srv.burst_aligned", 1)
+		} else {
+			r.Count("srv.burst_not_aligned", 1)
+		}
+		r.Count("srv.burst", 1)
+		if !observe(srvOp{fmt.Sprintf("burst_new(x%d)", K), a}) {
+			return false
+		}
+		x := a
+		if rng.Intn(2) == 0 {
+			x = changed(x)
+		}
+		x.Banned = true
+		return post("ban", x.Signed(gca.Priv))
+	}
+
 	// before registration nothing can be validly signed
 	for i := 0; i < rng.Intn(4); i++ {
 		a := fresh(rng.Intn(3) == 0)
@@ -483,7 +545,13 @@ func serverSequence(r *ev.Result, rng *rand.Rand, dir, label string) {
 	}
 	registered = true
 	nops := 14 + rng.Intn(14)
+	burstAt := rng.Intn(nops)
 	for i := 0; i < nops; i++ {
+		if i == burstAt && len(keys) < 7 {
+			if !burst() {
+				return
+			}
+		}
 		var a refenc.AuthServer
 		kind := ""
 		w := rng.Intn(100)
@@ -794,6 +862,8 @@ type cseq struct {
 	c           *client.Client
 	cur         cliView // last observed (and validated) state
 	steps       []string
+	sink        *drv.UDPSink
+	skipFiles   bool      // judgeRound leaves the files out (another round of the client is still running)
 	probe       bool      // judgeRound only answers, it records nothing
 	judgeGCA    *[32]byte // judge as if this were the client's GCA
 	zeroAdopted bool      // the list is empty because a valid zero-server order was adopted
@@ -892,7 +962,7 @@ func (q *cseq) build(forceZero bool) (raw []byte, class string, terminal bool) {
 		rep.Bitfield[i] = 0xff // nothing to retransmit
 	}
 	signer := q.rogue.Key.Priv
-	rogueRec := refenc.AuthServer{Pub: q.rogue.Key.Pub, Location: "127.0.0.1", TCP: q.rogue.Port, UDP: 9}
+	rogueRec := refenc.AuthServer{Pub: q.rogue.Key.Pub, Location: "127.0.0.1", TCP: q.rogue.Port, UDP: q.sink.Port}
 	room := 3 - q.liveOthers()
 	order := func() refenc.Migration {
 		return refenc.Migration{Equipment: rep.DevKey, NewGCA: rep.NewGCA, NewID: rep.NewID, Servers: rep.Servers}
@@ -1248,11 +1318,11 @@ func (q *cseq) judgeRound(raw []byte, class string, contacted bool, ret bool) bo
 			r.Violationf(key, rp, "after a round of class %s: "+f, append([]interface{}{class}, a...)...)
 		}
 	}
-	if ferr != nil {
+	if ferr != nil && !q.skipFiles {
 		bad("client-files-unreadable", "the client's files do not decode: %v", ferr)
 		return false
 	}
-	if d := obs.diff(files); d != "" {
+	if d := obs.diff(files); d != "" && !q.skipFiles {
 		bad("client-state-differs-from-files", "state and files differ: %s", d)
 	}
 	old := q.cur
@@ -1530,7 +1600,7 @@ func (q *cseq) overlap(step int) bool {
 	for i := range rep.Bitfield {
 		rep.Bitfield[i] = 0xff
 	}
-	rogueRec := refenc.AuthServer{Pub: q.rogue.Key.Pub, Location: "127.0.0.1", TCP: q.rogue.Port, UDP: 9}
+	rogueRec := refenc.AuthServer{Pub: q.rogue.Key.Pub, Location: "127.0.0.1", TCP: q.rogue.Port, UDP: q.sink.Port}
 	classA := ""
 	switch w := rng.Intn(100); {
 	case w < 35: // no signature at all: "back" to the GCA of the round's start
@@ -1593,6 +1663,376 @@ func (q *cseq) overlap(step int) bool {
 	return q.judgeRound(rawA, classA, true, retA)
 }
 
+const nResend = 500
+
+// storeReadings gives the client nResend stored readings (slots 0..nResend-1)
+// so that a reply can make it re-send them (1 ms apart in test builds).
+func (q *cseq) storeReadings() bool {
+	for i := 0; i < nResend; i++ {
+		if err := q.c.VerifSaveReading(uint32(i), uint32(5+i)); err != nil {
+			q.r.Inconc("cannot store readings: " + err.Error())
+			return false
+		}
+	}
+	return true
+}
+
+// overlapResend: round A receives a genuine list and a bitfield that makes it
+// re-send nResend reports. As soon as the first re-sent report is seen (A has
+// merged its list and released the client's lock), round B runs to completion
+// and adopts a ban, a new server or a genuine order. When BOTH rounds have
+// returned, state and files must agree, also across a restart.
+func (q *cseq) overlapResend(step int) bool {
+	r, rng := q.r, q.rng
+	G := q.gcas[q.gcaIndex()]
+	repA := refenc.SyncReply{DevKey: q.dev.Pub, Offset: 0, Unix: uint64(time.Now().Unix())}
+	for i := range repA.Bitfield {
+		repA.Bitfield[i] = 0xff
+	}
+	for i := 0; i < nResend; i++ {
+		repA.Bitfield[i/8] &^= 1 << (uint(i) % 8)
+	}
+	repA.Servers = append(repA.Servers, q.newEntry(true).Signed(G.Priv))
+	if e, ok := q.pick(false, false); ok && rng.Intn(2) == 0 {
+		b := asRecord(e)
+		b.Banned = true
+		repA.Servers = append(repA.Servers, b.Signed(G.Priv))
+	}
+	rawA := refenc.BuildSyncReply(repA, q.rogue.Key.Priv)
+	var mu sync.Mutex
+	first := true
+	var replyB []byte
+	q.rogue.SetReply(func(req []byte, n int) ([]byte, int) {
+		mu.Lock()
+		defer mu.Unlock()
+		if first {
+			first = false
+			return rawA, -1
+		}
+		return replyB, -1
+	})
+	c0 := q.sink.Count()
+	doneA := make(chan bool, 1)
+	cl := q.c
+	q.steps = append(q.steps, "resendA:list")
+	run.Op("%s resend-overlap step %d: round A starts", q.label, step)
+	go func() { doneA <- cl.VerifSyncOnce(nResend - 1) }()
+	aDone, retA := false, false
+	giveUp := time.Now().Add(40 * time.Second)
+	for q.sink.Count() == c0 && !aDone {
+		select {
+		case retA = <-doneA:
+			aDone = true
+		default:
+			if time.Now().After(giveUp) {
+				r.Inconc("resend-overlap: round A neither re-sent a report nor ended within 40 s")
+				<-doneA
+				return false
+			}
+			time.Sleep(100 * time.Microsecond)
+		}
+	}
+	r.Eval(1)
+	if aDone { // no re-send was seen: an ordinary round
+		r.Count("cli.resend_overlap_a_sent_nothing", 1)
+		return q.judgeRound(rawA, "resendA:list", true, retA)
+	}
+	// A's merge is done and visible; its file work is A's business until A returns
+	q.skipFiles = true
+	okA := q.judgeRound(rawA, "resendA:list", true, true)
+	q.skipFiles = false
+	if !okA {
+		<-doneA
+		return false
+	}
+	// ---- round B while A is re-sending
+	var rawB []byte
+	var classB string
+	wantOrder := rng.Intn(10) < 6
+	for {
+		var term bool
+		rawB, classB, term = q.build(false)
+		if term {
+			continue
+		}
+		if wantOrder && classB == "mig_valid" {
+			break
+		}
+		if !wantOrder && (classB == "list_new" || classB == "list_ban") {
+			break
+		}
+	}
+	mu.Lock()
+	replyB = rawB
+	mu.Unlock()
+	q.steps = append(q.steps, "resendB:"+classB)
+	before := q.cur
+	a0 := q.rogue.AcceptCount()
+	run.Op("%s resend-overlap step %d: round B class=%s", q.label, step, classB)
+	retB := q.c.VerifSyncOnce(binary.LittleEndian.Uint32(rawB[34:38]))
+	contactedB := q.rogue.AcceptCount() > a0
+	stillResending := false
+	select {
+	case retA = <-doneA:
+		aDone = true
+	default:
+		stillResending = true
+	}
+	r.Eval(1)
+	q.skipFiles = true
+	okB := q.judgeRound(rawB, classB, contactedB, retB)
+	q.skipFiles = false
+	if !aDone {
+		select {
+		case retA = <-doneA:
+		case <-time.After(60 * time.Second):
+			r.Inconc("resend-overlap: round A did not end within 60 s")
+			return false
+		}
+	}
+	if !okB {
+		return false
+	}
+	r.Count("cli.resend_overlap", 1)
+	r.Nontrivial(fmt.Sprintf("%s/resend%d", q.label, step))
+	if stillResending && q.cur.diff(before) != "" {
+		r.Count("cli.resend_overlap_b_changed_state_while_a_resent", 1)
+	}
+	// ---- both rounds have returned
+	obs := viewOf(q.c)
+	files, ferr := viewOfFiles(q.dir)
+	rp := q.replay(map[string]interface{}{"replyA": hx(rawA), "replyB": hx(rawB), "classB": classB, "a_returned": retA, "b_returned": retB, "b_finished_while_a_resent": stillResending})
+	if ferr != nil {
+		r.Violationf("client-files-unreadable", rp, "after two overlapping rounds the client's files do not decode: %v", ferr)
+		return false
+	}
+	if d := obs.diff(q.cur); d != "" {
+		r.Violationf("client-state-changed-without-reply", rp, "the client's state changed after both rounds had been judged: %s", d)
+		return false
+	}
+	if d := obs.diff(files); d != "" {
+		r.Violationf("client-state-differs-from-files", rp, "after two overlapping rounds (the first still re-sending reports while the second adopted %s) both returned, state and files differ: %s", classB, d)
+		return false
+	}
+	return q.restart("after resend-overlap")
+}
+
+// round delivers one reply in an ordinary round and judges it.
+func (q *cseq) round(raw []byte, class string) bool {
+	q.steps = append(q.steps, class)
+	q.rogue.SetReply(func(req []byte, n int) ([]byte, int) { return raw, -1 })
+	a0 := q.rogue.AcceptCount()
+	run.Op("%s round class=%s", q.label, class)
+	ret := q.c.VerifSyncOnce(binary.LittleEndian.Uint32(raw[34:38]))
+	contacted := q.rogue.AcceptCount() > a0
+	q.r.Eval(1)
+	q.r.Count("cli.class."+class, 1)
+	return q.judgeRound(raw, class, contacted, ret)
+}
+
+// ---------------------------------------------------------------- I/O fault at the list write
+
+const faultMarker = "fault active"
+
+// faultGrand runs in a grandchild process: a client, a few ordinary rounds,
+// then a round whose reply changes the list while gcaServers.dat cannot be
+// written (a directory sits at its path). The unchanged client panics there;
+// that ends this process and the parent takes over. A client that survives is
+// judged here: once the fault is gone (the disk holds what it held before),
+// state and files must agree, also after a restart.
+func faultGrand(b run.Batch, r *ev.Result, rng *rand.Rand) {
+	dir := b.P("client")
+	q, cleanup := setupClient(r, rng, dir, "fault "+b.P("label"))
+	if q == nil {
+		return
+	}
+	// While the fault is active nothing may run on the way out of a panic:
+	// the client's own lock is held at that moment and Close() would wait for it.
+	faultActive := false
+	defer func() {
+		if !faultActive {
+			cleanup()
+		}
+	}()
+	for i := 0; i < 1+rng.Intn(3); i++ {
+		var raw []byte
+		var class string
+		for {
+			var term bool
+			raw, class, term = q.build(false)
+			if !term && (class == "list_new" || class == "list_ban" || class == "list_dup_changed") {
+				break
+			}
+		}
+		if !q.round(raw, class) {
+			return
+		}
+	}
+	G := q.gcas[q.gcaIndex()]
+	rep := refenc.SyncReply{DevKey: q.dev.Pub, Offset: uint32(rng.Intn(1 << 20)), Unix: uint64(time.Now().Unix())}
+	for i := range rep.Bitfield {
+		rep.Bitfield[i] = 0xff
+	}
+	rep.Servers = append(rep.Servers, q.newEntry(true).Signed(G.Priv))
+	if e, ok := q.pick(false, false); ok {
+		x := asRecord(e)
+		x.Banned = true
+		rep.Servers = append(rep.Servers, x.Signed(G.Priv))
+	}
+	raw := refenc.BuildSyncReply(rep, q.rogue.Key.Priv)
+	path := filepath.Join(dir, client.GCAServerMapFile)
+	if err := os.Rename(path, path+".saved"); err != nil {
+		r.Inconc(err.Error())
+		return
+	}
+	if err := os.Mkdir(path, 0755); err != nil {
+		r.Inconc(err.Error())
+		return
+	}
+	r.Count("fault.rounds", 1)
+	r.Save(filepath.Join(b.Dir, "result.json")) // what was judged so far survives the expected death
+	run.Op("%s: a directory sits at %s", faultMarker, path)
+	q.steps = append(q.steps, "fault:list_changes")
+	q.rogue.SetReply(func(req []byte, n int) ([]byte, int) { return raw, -1 })
+	a0 := q.rogue.AcceptCount()
+	faultActive = true
+	ret := q.c.VerifSyncOnce(rep.Offset)
+	faultActive = false
+	contacted := q.rogue.AcceptCount() > a0
+	// ---- the client lived through the failed write
+	run.Op("fault over: client survived the round (returned %v)", ret)
+	r.Count("fault.survived", 1)
+	if err := os.Remove(path); err != nil {
+		r.Inconc("cannot lift the fault: " + err.Error())
+		return
+	}
+	if err := os.Rename(path+".saved", path); err != nil {
+		r.Inconc("cannot lift the fault: " + err.Error())
+		return
+	}
+	r.Eval(1)
+	if !q.judgeRound(raw, "fault:list_changes", contacted, ret) {
+		return
+	}
+	q.restart("after a round whose list write failed")
+}
+
+// faultBatch hosts the grandchildren and judges the ones that died.
+func faultBatch(b run.Batch, r *ev.Result, rng *rand.Rand) {
+	self, err := os.Executable()
+	if err != nil {
+		r.Inconc(err.Error())
+		return
+	}
+	for i := 0; i < b.N; i++ {
+		dir := filepath.Join(b.Dir, fmt.Sprintf("g%d", i))
+		cdir := filepath.Join(dir, "client")
+		os.MkdirAll(dir, 0755)
+		label := fmt.Sprintf("batchseed=%d grandchild=%d", b.Seed, i)
+		gb := run.Batch{Index: i, Seed: rng.Int63(), Tier: b.Tier, Kind: "faultgrand", N: 1, Dir: dir, Params: map[string]string{"client": cdir, "label": label}}
+		raw, _ := json.Marshal(gb)
+		bf := filepath.Join(dir, "batch.json")
+		os.WriteFile(bf, raw, 0644)
+		se, _ := os.Create(filepath.Join(dir, "stderr"))
+		cmd := exec.Command(self, "child", bf)
+		cmd.Dir = dir
+		cmd.Stderr = se
+		cmd.Env = append(os.Environ(), "GOTRACEBACK=all", "TMPDIR="+dir)
+		run.Op("%s: start", label)
+		if err := cmd.Start(); err != nil {
+			se.Close()
+			r.Inconc("cannot start grandchild: " + err.Error())
+			return
+		}
+		done := make(chan error, 1)
+		go func() { done <- cmd.Wait() }()
+		timedOut := false
+		select {
+		case <-done:
+		case <-time.After(80 * time.Second):
+			timedOut = true
+			cmd.Process.Kill()
+			<-done
+		}
+		se.Close()
+		stderr, _ := os.ReadFile(filepath.Join(dir, "stderr"))
+		oplog, _ := os.ReadFile(filepath.Join(dir, "oplog"))
+		if res, err := ev.LoadResult(filepath.Join(dir, "result.json")); err == nil {
+			r.Eval(int(res.Evaluations))
+			for k, v := range res.Counters {
+				if strings.HasPrefix(k, "max.") {
+					r.Max(k, v)
+				} else {
+					r.Count(k, v)
+				}
+			}
+			for _, v := range res.Violations {
+				r.Violation(v.Key, v.Desc, v.Replay)
+			}
+			for _, s := range res.Inconclusive {
+				r.Inconc(s)
+			}
+		}
+		r.Nontrivial(label)
+		rp := map[string]interface{}{"batch": theBatch, "grandchild": label, "stderr_head": string(stderr[:min(len(stderr), 3000)]), "oplog_tail": lastLines(string(oplog), 12)}
+		code := cmd.ProcessState.ExitCode()
+		switch {
+		case timedOut:
+			r.Inconc(label + " hit the 80 s watchdog")
+		case code == 0:
+			// survived: judged inside the grandchild
+		default:
+			line := run.CrashLine(string(stderr))
+			active := strings.Contains(string(oplog), faultMarker) && !strings.Contains(string(oplog), "fault over")
+			if !(active && strings.HasPrefix(line, "panic:") && strings.Contains(line, client.GCAServerMapFile)) {
+				if line == "" {
+					r.Inconc(fmt.Sprintf("%s ended with exit %d and no crash line", label, code))
+				} else {
+					r.Violationf("crash:"+run.Normalize(line), rp, "the process hosting the client died (exit %d): %s", code, line)
+				}
+				break
+			}
+			// The client ended its process at the failed write. The disk is what
+			// it was: lift the fault and let a fresh process (this one) start.
+			r.Count("fault.died_at_write", 1)
+			path := filepath.Join(cdir, client.GCAServerMapFile)
+			os.Remove(path)
+			if err := os.Rename(path+".saved", path); err != nil {
+				r.Inconc("cannot lift the fault: " + err.Error())
+				break
+			}
+			files, ferr := viewOfFiles(cdir)
+			c, err := drv.StartClient(cdir)
+			r.Eval(1)
+			if err != nil {
+				r.Violationf("client-restart-fails", rp, "after the client died at a failed write of its server list, a fresh process cannot start it: %v", err)
+				break
+			}
+			obs := viewOf(c)
+			closeClient(c)
+			if ferr != nil {
+				r.Violationf("client-files-unreadable", rp, "files do not decode after the failed write: %v", ferr)
+			} else if d := obs.diff(files); d != "" {
+				r.Violationf("client-restart-state-differs-from-files", rp, "after the failed write and a fresh start the state differs from the files: %s", d)
+			} else {
+				r.Count("fault.fresh_start_equals_files", 1)
+			}
+		}
+		os.RemoveAll(dir)
+		if r.NumViolations() > 6 {
+			return
+		}
+	}
+}
+
+func lastLines(s string, n int) []string {
+	l := strings.Split(strings.TrimRight(s, "\n"), "\n")
+	if len(l) > n {
+		l = l[len(l)-n:]
+	}
+	return l
+}
+
 func (q *cseq) restart(reason string) bool {
 	r := q.r
 	q.steps = append(q.steps, "restart")
@@ -1629,45 +2069,76 @@ func (q *cseq) restart(reason string) bool {
 	return true
 }
 
-func clientSequence(r *ev.Result, rng *rand.Rand, dir, label string, zeroEnding bool) {
+// setupClient provisions a client directory whose only reachable server is a
+// listener of the harness, starts the client and returns the sequence state.
+func setupClient(r *ev.Result, rng *rand.Rand, dir, label string) (*cseq, func()) {
 	rogue, err := drv.NewRogueSync(rng, nil)
 	if err != nil {
 		r.Inconc(err.Error())
-		return
+		return nil, nil
 	}
-	defer rogue.Close()
-	q := &cseq{r: r, rng: rng, label: label, dir: dir, rogue: rogue, dev: refenc.GenKey(rng), other: refenc.GenKey(rng), foreign: refenc.GenKey(rng)}
+	sink, err := drv.NewUDPSink()
+	if err != nil {
+		rogue.Close()
+		r.Inconc(err.Error())
+		return nil, nil
+	}
+	q := &cseq{r: r, rng: rng, label: label, dir: dir, rogue: rogue, sink: sink, dev: refenc.GenKey(rng), other: refenc.GenKey(rng), foreign: refenc.GenKey(rng)}
+	cleanup := func() {
+		if q.c != nil {
+			closeClient(q.c)
+		}
+		sink.Close()
+		rogue.Close()
+	}
 	for i := 0; i < 24; i++ {
 		q.gcas = append(q.gcas, refenc.GenKey(rng))
 	}
 	env := drv.ClientEnv{Dir: dir, Key: q.dev, GCA: q.gcas[0].Pub, ShortID: uint32(rng.Intn(1 << 31)), LastSync: drv.FreshSyncStamp()}
-	env.Servers = []refenc.MapEntry{rogue.Entry(9, false)}
+	env.Servers = []refenc.MapEntry{rogue.Entry(sink.Port, false)}
 	for i := 0; i < rng.Intn(3); i++ {
 		env.Servers = append(env.Servers, content(q.newEntry(i > 0 || rng.Intn(2) == 0)))
 	}
 	if err := env.Write(); err != nil {
 		r.Inconc(err.Error())
-		return
+		cleanup()
+		return nil, nil
 	}
 	if q.c, err = drv.StartClient(dir); err != nil {
 		r.Inconc("client start: " + err.Error())
-		return
+		cleanup()
+		return nil, nil
 	}
-	defer func() {
-		if q.c != nil {
-			closeClient(q.c)
-		}
-	}()
 	q.cur = viewOf(q.c)
 	if files, err := viewOfFiles(dir); err != nil || q.cur.diff(files) != "" {
 		r.Inconc("freshly provisioned client does not agree with its files")
+		cleanup()
+		return nil, nil
+	}
+	return q, cleanup
+}
+
+func clientSequence(r *ev.Result, rng *rand.Rand, dir, label string, zeroEnding bool) {
+	q, cleanup := setupClient(r, rng, dir, label)
+	if q == nil {
 		return
 	}
+	defer cleanup()
+	rogue := q.rogue
 	start := time.Now()
 	rounds := 10 + rng.Intn(8)
 	overlapAt := -1
 	if rng.Intn(10) < 8 {
 		overlapAt = 1 + rng.Intn(rounds-2)
+	}
+	resendAt := -1
+	if rng.Intn(10) < 6 {
+		resendAt = 1 + rng.Intn(rounds-2)
+		if resendAt == overlapAt {
+			resendAt = -1
+		} else if !q.storeReadings() {
+			return
+		}
 	}
 	for step := 0; step < rounds; step++ {
 		if time.Since(start) > 40*time.Second {
@@ -1679,6 +2150,18 @@ func clientSequence(r *ev.Result, rng *rand.Rand, dir, label string, zeroEnding 
 			return
 		}
 		last := step == rounds-1
+		if step == resendAt {
+			if !q.overlapResend(step) {
+				return
+			}
+			if e, ok := q.cur.Servers[rogue.Key.Pub]; !ok || e.Banned {
+				break
+			}
+			if q.gcaIndex() < 0 || q.gcaIndex()+1 >= len(q.gcas) {
+				r.Inconc("client's GCA key is none of the harness's keys")
+				return
+			}
+		}
 		if step == overlapAt {
 			if !q.overlap(step) {
 				return
